@@ -1,10 +1,12 @@
 package props
 
 import (
+	"bytes"
 	"fmt"
 	"io/ioutil"
 	"math"
 	"os"
+	"os/exec"
 	"path/filepath"
 	"sort"
 	"strconv"
@@ -36,7 +38,7 @@ func (c18) Meta() fw.Meta {
 		Assumptions: []string{
 			"view reads the wall clock: the run is accepted only when the second did not change across the process (stable second); discarded runs are counted",
 		},
-		Obligations: []string{"view_runs", "view_raw_runs", "view_records_checked", "raw_records_checked", "header_checked", "no_header_checked", "sorted_raw", "unsorted_raw", "special_values_printed", "inf_printed", "stale_lap_in_raw", "degenerate_window", "single_archive_selection", "cross_relation_checked", "non_default_tz_runs", "slots_stamped_ahead_of_clock", "slots_stamped_beyond_2_31", "two_runs_one_textout_file", "files_with_empty_first_slot", "remote_runs_with_concurrent_clients", "runs_with_text_out_on_a_full_device"},
+		Obligations: []string{"view_runs", "view_raw_runs", "view_records_checked", "raw_records_checked", "header_checked", "no_header_checked", "sorted_raw", "unsorted_raw", "special_values_printed", "inf_printed", "stale_lap_in_raw", "degenerate_window", "single_archive_selection", "cross_relation_checked", "non_default_tz_runs", "slots_stamped_ahead_of_clock", "slots_stamped_beyond_2_31", "two_runs_one_textout_file", "files_with_empty_first_slot", "remote_runs_with_concurrent_clients", "runs_with_text_out_on_a_full_device", "race_built_view_runs"},
 		Workers:     12,
 	}
 }
@@ -432,6 +434,25 @@ func (c18) Run(c *fw.Ctx) {
 			if so.T0 == so.T1 && r2.T0 == so.T0 && !strings.Contains(content, so.Stdout) {
 				c.Violationf("text-out-file-incomplete", fw.J{"scenario": sc}, "the -text-out file does not contain the complete output of the second run")
 				return
+			}
+		}
+	}
+	// view of all archives with the race-detector build of the command: the per-archive fetches of one view are
+	// free of data races (a race report on stderr is a violation; so is output that differs from the plain build's)
+	if c.Index%4 == 0 && noiseBase == "" && len(l.Archs) >= 2 && !c.Violated() {
+		rb := filepath.Join(c.Env.BuildDir, "whispertool-race")
+		if fileExists(rb) {
+			for k := 0; k < 3; k++ {
+				cmd := exec.Command(rb, "view", "-src-base", filepath.Dir(path), "-src", "file.wsp", "-archive", "-1", "-header=false", "-from", tsArg(wnow-l.MaxRet()+1), "-until", tsArg(wnow))
+				cmd.Env = append(os.Environ(), "GORACE=halt_on_error=0")
+				var so, se bytes.Buffer
+				cmd.Stdout, cmd.Stderr = &so, &se
+				cmd.Run()
+				c.Count("race_built_view_runs", 1)
+				if strings.Contains(se.String(), "WARNING: DATA RACE") {
+					c.Violationf("race:cli:view", fw.J{"scenario": sc, "report": truncStr(se.String(), 3000)}, "the race detector reported a data race inside view")
+					return
+				}
 			}
 		}
 	}
